@@ -23,6 +23,7 @@ type JoinSc struct {
 	InCap    int      `json:"in_cap"`
 	RelCap   int      `json:"released_cap"` // v1: capacity of the user-owned Released channel
 	Bursts   []JBurst `json:"bursts"`
+	CloseDly int64    `json:"close_delay"` // pause between the last write and closing the input
 	Cons     []JCons  `json:"consumer"` // cycled per slice
 	Scribble bool     `json:"scribble"` // copy mode: consumer overwrites the slices it keeps
 	StallAt  int      `json:"stall_at"` // consumer pauses before reading slice #StallAt (0: never)
@@ -148,7 +149,8 @@ func genJoin(engine, prop string, r *simrt.SplitMix) *JoinSc {
 		iv = 1
 	}
 
-	delays := []int64{0, 0, 0, 1, unit / 4, unit / 2, unit - 1, unit, unit + 1, unit + iv, unit + iv + 1, 2 * unit, 3*unit + iv/2}
+	// many of these land exactly on a tick of the discipline's ticker (multiples of iv)
+	delays := []int64{0, 0, 0, 1, unit / 4, unit / 2, unit - 1, unit, unit + 1, unit + iv, unit + iv + 1, 2 * unit, 3*unit + iv/2, iv, 2 * iv, unit - iv}
 
 	// the number of ticker wake-ups is what a run costs: bound the total pause
 	budget := 1200 * iv
@@ -199,6 +201,13 @@ func genJoin(engine, prop string, r *simrt.SplitMix) *JoinSc {
 		}
 
 		sc.Bursts = append(sc.Bursts, b)
+	}
+
+	if r.Intn(2) == 0 {
+		sc.CloseDly = pick(r, delays...)
+		if sc.CloseDly < 0 || sc.CloseDly > budget {
+			sc.CloseDly = 0
+		}
 	}
 
 	// consumer
@@ -265,7 +274,7 @@ func genJoin(engine, prop string, r *simrt.SplitMix) *JoinSc {
 }
 
 func joinHorizon(sc *JoinSc) int64 {
-	t := 4*sc.Timeout + sc.StallFor
+	t := 4*sc.Timeout + sc.StallFor + sc.CloseDly
 
 	slices := 1
 
@@ -287,6 +296,21 @@ func joinHorizon(sc *JoinSc) int64 {
 
 	return 4*t + 10_000
 }
+
+// touch reads a slice the way a consumer would, in ordinary (race-instrumented) code:
+// simrt's own reads for the history are invisible to the race detector.
+//
+//go:noinline
+func touch(sl []int) {
+	sum := 0
+	for _, x := range sl {
+		sum += x
+	}
+
+	touchSink += sum
+}
+
+var touchSink int
 
 type joinHandle struct {
 	out     <-chan []int
@@ -397,6 +421,12 @@ func buildJoin(sc *JoinSc) (simrt.Config, func()) {
 				}
 			}
 
+			if sc.Stop != nil {
+				simrt.SleepOr("env:producer", ns(sc.CloseDly), ctlDone)
+			} else {
+				simrt.Sleep("env:producer", ns(sc.CloseDly))
+			}
+
 			closeIn()
 		})
 
@@ -445,6 +475,7 @@ func joinConsumer(sc *JoinSc, h joinHandle, ctlDone <-chan struct{}) {
 
 	finish := func() {
 		for _, kp := range keep {
+			touch(kp.sl)
 			simrt.NoteSlice("final", int64(kp.k), kp.sl)
 		}
 	}
@@ -474,6 +505,7 @@ func joinConsumer(sc *JoinSc, h joinHandle, ctlDone <-chan struct{}) {
 			return
 		}
 
+		touch(sl)
 		simrt.NoteSlice("got", int64(k), sl)
 
 		if !sc.NoCopy {
@@ -512,6 +544,7 @@ func joinConsumer(sc *JoinSc, h joinHandle, ctlDone <-chan struct{}) {
 			simrt.Sleep("env:consumer", ns(c.Hold))
 		}
 
+		touch(sl)
 		simrt.NoteSlice("before-release", int64(k), sl)
 		simrt.Note("release", int64(k), 0)
 
@@ -1183,6 +1216,10 @@ func shrinkJoin(sc *JoinSc) []any {
 
 	if len(sc.Cons) > 0 {
 		add(func(c *JoinSc) { c.Cons = nil })
+	}
+
+	if sc.CloseDly > 0 {
+		add(func(c *JoinSc) { c.CloseDly = 0 })
 	}
 
 	if sc.StallAt > 0 && (sc.Stop == nil || !sc.Stop.StopReader) {
